@@ -274,6 +274,11 @@ def build_model(spec):
         chem.addGas(gas_profile(mol, prof))
     kw = dict(planet=planet, star=star, chemistry=chem, nlayers=N, atm_min_pressure=pmin,
               atm_max_pressure=pmax, temperature_profile=temp_profile(spec.get('T', ('iso', 1000.0)), N))
+    if spec.get('parray') is not None:
+        # tabulated layer pressures (surface first), handed over exactly as given (an integer array stays one)
+        from taurex.data.profiles.pressure.arraypressure import ArrayPressureProfile
+        kw = dict(planet=planet, star=star, chemistry=chem, pressure_profile=ArrayPressureProfile(spec['parray']),
+                  temperature_profile=temp_profile(spec.get('T', ('iso', 1000.0)), N))
     kind = spec.get('kind', 'transmission')
     if kind == 'transmission':
         m = TransmissionModel(new_path_method=(spec.get('path', 'old') == 'new'), **kw)
